@@ -166,6 +166,10 @@ func checkMatrixState(m *gozxing.BitMatrix, g *grid, reuse *gozxing.BitArray) er
 			return fmt.Errorf("GetRow(%d).GetNextSet(0)=%d, model %d", y, ns, want)
 		}
 		if reuse != nil {
+			// the caller's row arrives dirty (every bit set): GetRow must hand back only this row's bits
+			for i := 0; i < reuse.GetSize(); i++ {
+				reuse.Set(i)
+			}
 			r2 := m.GetRow(y, reuse)
 			if r2.GetSize() < g.w {
 				return fmt.Errorf("GetRow(%d,reused) size %d < width", y, r2.GetSize())
